@@ -63,6 +63,10 @@ type World struct {
 	// PublishFaultAt, when > 0, makes the next Publish run its first attempt
 	// with that statement failing (one shot)
 	PublishFaultAt int
+	// CallFaultAt, when > 0, does the same for the next Pull / ModifyAckDeadline:
+	// first attempt with the k-th statement failing; after an error the client
+	// retries, an OK is as binding as any other
+	CallFaultAt int
 	// StreamExtends lets stream sessions also extend deadlines (per ack id, in
 	// the same request as their nacks)
 	StreamExtends bool
@@ -1002,7 +1006,30 @@ func (w *World) pull(name string, max int, immediately bool) []*pubsubpb.Receive
 		diag = w.pullDiag(name)
 	}
 	lo := w.now()
-	resp, err := w.E.Sub.Pull(w.Ctx, &pubsubpb.PullRequest{Subscription: name, MaxMessages: int32(max), ReturnImmediately: immediately})
+	req := &pubsubpb.PullRequest{Subscription: name, MaxMessages: int32(max), ReturnImmediately: immediately}
+	var resp *pubsubpb.PullResponse
+	var err error
+	faulted := false
+	if k := w.CallFaultAt; k > 0 && immediately {
+		w.CallFaultAt = 0
+		faulted = true
+		actor := fmt.Sprintf("faulty-pull-%d", w.opn())
+		seam.C.SetFault(&seam.Fault{Actor: actor, K: k, Mode: seam.FaultError})
+		resp, err = w.E.Sub.Pull(w.E.Actor(actor), req)
+		if seam.C.FaultHits() > 0 {
+			w.stat("pull_faults_hit", 1)
+			if err == nil {
+				w.stat("pull_ok_although_a_statement_failed", 1)
+			}
+		}
+		seam.C.SetFault(nil)
+		if err != nil {
+			resp, err = w.E.Sub.Pull(w.Ctx, req)
+		}
+	} else {
+		resp, err = w.E.Sub.Pull(w.Ctx, req)
+	}
+	_ = faulted
 	hi := w.now()
 	if !immediately {
 		w.stat("waiting_pulls", 1)
@@ -1110,7 +1137,26 @@ func (w *World) applyAck(ids []string, lo, hi time.Time) {
 func (w *World) ModAck(subName string, ids []string, secs int32) {
 	w.slot()
 	lo := w.now()
-	_, err := w.E.Sub.ModifyAckDeadline(w.Ctx, &pubsubpb.ModifyAckDeadlineRequest{Subscription: subName, AckIds: ids, AckDeadlineSeconds: secs})
+	mreq := &pubsubpb.ModifyAckDeadlineRequest{Subscription: subName, AckIds: ids, AckDeadlineSeconds: secs}
+	var err error
+	if k := w.CallFaultAt; k > 0 {
+		w.CallFaultAt = 0
+		actor := fmt.Sprintf("faulty-modack-%d", w.opn())
+		seam.C.SetFault(&seam.Fault{Actor: actor, K: k, Mode: seam.FaultError})
+		_, err = w.E.Sub.ModifyAckDeadline(w.E.Actor(actor), mreq)
+		if seam.C.FaultHits() > 0 {
+			w.stat("modack_faults_hit", 1)
+			if err == nil {
+				w.stat("modack_ok_although_a_statement_failed", 1)
+			}
+		}
+		seam.C.SetFault(nil)
+		if err != nil {
+			_, err = w.E.Sub.ModifyAckDeadline(w.Ctx, mreq)
+		}
+	} else {
+		_, err = w.E.Sub.ModifyAckDeadline(w.Ctx, mreq)
+	}
 	hi := w.now()
 	w.rec("modack", fmt.Sprintf("%s n=%d secs=%d", subName, len(ids), secs), code(err).String())
 	if !w.expectCode("C04", "ModifyAckDeadline", err, codes.OK) {
